@@ -26,6 +26,7 @@ import (
 	"net/netip"
 	"regexp"
 	"runtime"
+	"sort"
 	"strconv"
 	"strings"
 	"testing"
@@ -477,7 +478,7 @@ func c13PanicSite() string {
 	fr := runtime.CallersFrames(pcs[:n])
 	for {
 		f, more := fr.Next()
-		if strings.Contains(f.File, "gobgp") && !strings.Contains(f.File, "zz_verif") && !strings.Contains(f.File, "/verif/") {
+		if strings.Contains(f.Function, "osrg/gobgp") && !strings.Contains(f.File, "zz_verif") && !strings.Contains(f.Function, "internal/verif") {
 			i := strings.LastIndex(f.File, "/")
 			return fmt.Sprintf("%s:%d", f.File[i+1:], f.Line)
 		}
@@ -572,8 +573,19 @@ func (x *c13Ctx) classify(ref *c13Ref, vals []*c13Val) (key, detail string) {
 			r, ok := x.verdict[ck]
 			if !ok {
 				if s := x.single(st); s != nil {
-					got, pan := c13Eval(s.conds[c13Any], c13Path(x.kind, []*c13Val{v}))
+					// one pattern, one community: any and all coincide, invert is the negation; any/invert
+					// may take the index fast path while all always walks the compiled matchers
 					want := ref.match(i, v)
+					p1 := c13Path(x.kind, []*c13Val{v})
+					got, pan := c13Eval(s.conds[c13Any], p1)
+					if pan == "" && got == want {
+						got, pan = c13Eval(s.conds[c13All], p1)
+					}
+					if pan == "" && got == want {
+						var inv bool
+						inv, pan = c13Eval(s.conds[c13Invert], p1)
+						got = !inv
+					}
 					if pan != "" || got != want {
 						m := s.mode(0)
 						feat := c13Feat(x.kind, st)
@@ -619,7 +631,9 @@ func (x *c13Ctx) report(c *vr.Report, ref *c13Ref, in []string, edits []c13Edit,
 		for i := range ref.stored {
 			modes[i] = x.mode(i)
 		}
-		k = "C13:" + x.kind + ":combination:option=" + c13OptName[opt] + ":modes=" + strings.Join(modes, ",")
+		sm := append([]string{}, modes...)
+		sort.Strings(sm)
+		k = "C13:" + x.kind + ":combination:modes=" + strings.Join(sm, ",")
 		detail = "every pattern alone agrees with its regexp; the combination does not"
 	}
 	c.Violationf(k, cs, "%s set stored=%q (configured %q, edits %v) option=%s communities=%v: condition=%v regexp=%v; %s",
